@@ -8,6 +8,9 @@ use std::collections::{HashMap, HashSet};
 pub struct Bisim {
     /// TypeId -> portable id it was paired with
     pub paired: HashMap<TypeId, u32>,
+    /// every distinct compile-time definition met under one type identity (two Rust types may declare the same
+    /// identity: both definitions must be the one the registry holds)
+    pub defs: HashMap<TypeId, Vec<scale_info::Type<MetaForm>>>,
     pub types_compared: u64,
     pub fields_compared: u64,
     pub max_depth: u32,
@@ -25,16 +28,23 @@ fn strs(a: &[&'static str], b: &[String], what: &str, at: &str) -> R {
 
 impl Bisim {
     pub fn conforms(&mut self, meta: &MetaType, id: u32, reg: &PortableRegistry, depth: u32) -> R {
+        let m = meta.type_info();
         if let Some(prev) = self.paired.get(&meta.type_id()) {
             if *prev != id {
                 return Err(format!("one type identity is paired with two ids: {} and {}", prev, id));
             }
-            self.cycles_cut += 1;
-            return Ok(());
+            // the coinduction hypothesis covers this (identity, id) pair only for a definition already compared
+            let known = self.defs.entry(meta.type_id()).or_default();
+            if known.iter().any(|d| d == &m) {
+                self.cycles_cut += 1;
+                return Ok(());
+            }
+            known.push(m.clone());
+        } else {
+            self.paired.insert(meta.type_id(), id);
+            self.defs.entry(meta.type_id()).or_default().push(m.clone());
         }
-        self.paired.insert(meta.type_id(), id);
         self.max_depth = self.max_depth.max(depth);
-        let m = meta.type_info();
         let p = reg.resolve(id).ok_or_else(|| format!("id {} does not resolve", id))?;
         let at = format!("id {} ({})", id, if m.path.segments.is_empty() { format!("{:?}", kind(&m.type_def)) } else { m.path.segments.join("::") });
         self.compare(&m, p, reg, depth, &at)
